@@ -73,13 +73,13 @@ theorem filterMap_map_some {γ : Type} (f : α → β) (g : β → Option γ) (h
     (hg : ∀ a, g (f a) = some (h a)) : (l.map f).filterMap g = l.map h := by
   induction l with
   | nil => rfl
-  | cons a r ih => simp [List.filterMap_cons, hg, ih]
+  | cons a r ih => simp [hg, ih]
 
 theorem filterMap_map_none {γ : Type} (f : α → β) (g : β → Option γ) (l : List α)
     (hg : ∀ a, g (f a) = none) : (l.map f).filterMap g = [] := by
   induction l with
   | nil => rfl
-  | cons a r ih => simp [List.filterMap_cons, hg, ih]
+  | cons a r ih => simp [hg, ih]
 
 theorem rev_ind {P : List α → Prop} (hnil : P []) (hsnoc : ∀ l a, P l → P (l ++ [a])) (l : List α) : P l := by
   have : ∀ r : List α, P r.reverse := by
@@ -260,7 +260,8 @@ theorem dictGet_build (l : List α) (k : κ) :
       simp [h, h', ih]
 
 /-- keys in order of first occurrence -/
-theorem keys_build (l : List α) : keys (build key val [] l) = (l.map key).eraseDups := by
+theorem keys_build [inst : BEq κ] [LawfulBEq κ] (l : List α) :
+    keys (build key val [] l) = (l.map key).eraseDups := by
   induction l using rev_ind with
   | hnil => simp [build, keys]
   | hsnoc r a ih =>
@@ -271,13 +272,13 @@ theorem keys_build (l : List α) : keys (build key val [] l) = (l.map key).erase
       have h' : key a ∈ r.map key := List.mem_eraseDups.mp h
       have : List.removeAll [key a] (r.map key) = [] := by
         simp only [List.removeAll, List.filter_cons, List.filter_nil]
-        simp [List.elem_eq_mem, h']
+        simp [h']
       simp [this]
     · rw [if_neg h]
       have h' : key a ∉ r.map key := fun hm => h (List.mem_eraseDups.mpr hm)
       have : List.removeAll [key a] (r.map key) = [key a] := by
         simp only [List.removeAll, List.filter_cons, List.filter_nil]
-        simp [List.elem_eq_mem, h']
+        simp [h']
       simp [this, List.eraseDups_cons]
 
 end dict
@@ -298,9 +299,11 @@ structure WF (g : Graph ν π) : Prop where
   edges : EdgesWF g
   nodup : NodesNodup g
 
+omit [DecidableEq ν] in
 theorem wf_empty : WF (Graph.empty : Graph ν π) :=
   ⟨(by intro e he; cases he), (by simp [NodesNodup])⟩
 
+omit [DecidableEq ν] in
 theorem wf_of_same (g g' : Graph ν π) (hn : g'.nodes = g.nodes) (he : g'.edges = g.edges) (h : WF g) : WF g' :=
   ⟨by intro e hm; rw [hn]; rw [he] at hm; exact h.edges e hm, by unfold NodesNodup; rw [hn]; exact h.nodup⟩
 
@@ -423,6 +426,31 @@ theorem mem_edgesOrdered_of_wf (g : Graph ν π) (h : EdgesWF g) (e : ν × ν) 
   exact ⟨fun x => x.1, fun x => ⟨x, (h e x).1⟩⟩
 
 end wf
+
+/-! ### the executable checks decide the invariants (the driver reports them for every generated case) -/
+
+section checks
+open Export
+
+theorem nodupb_iff {α : Type} [DecidableEq α] (l : List α) : nodupb l = true ↔ l.Nodup := by
+  induction l with
+  | nil => simp [nodupb]
+  | cons x r ih =>
+    simp only [nodupb, Bool.and_eq_true, Bool.not_eq_true', List.nodup_cons, ih]
+    constructor
+    · rintro ⟨h1, h2⟩
+      exact ⟨by simpa using h1, h2⟩
+    · rintro ⟨h1, h2⟩
+      exact ⟨by simpa using h1, h2⟩
+
+theorem edgesWFb_iff (g : LGraph) : edgesWFb g = true ↔ EdgesWF g := by
+  unfold edgesWFb EdgesWF
+  simp [List.all_eq_true]
+
+theorem wf_of_check (g : LGraph) (h1 : edgesWFb g = true) (h2 : nodupb g.nodes = true) : WF g :=
+  ⟨(edgesWFb_iff g).mp h1, (nodupb_iff g.nodes).mp h2⟩
+
+end checks
 
 /-! ### the assembler keeps the invariants -/
 
@@ -645,8 +673,7 @@ theorem nodup_union (a b : List Node) (ha : a.Nodup) (hb : b.Nodup) : (union a b
   intro x hx y hy
   rw [List.mem_filter] at hy
   intro e; subst e
-  have : a.contains x = true := by simpa using hx
-  simp [this] at hy
+  simp at hy
   exact hy.2 hx
 
 theorem mem_union (a b : List Node) (x : Node) : x ∈ union a b ↔ x ∈ a ∨ x ∈ b := by
